@@ -172,6 +172,8 @@ def apply(text, opts, kind='fn'):
         # R8: Entry::Vacant idiom -> contains_key / insert (a VacantEntry holds &mut to the map)
         text = _sub(r'if let Entry::Vacant\((\w+)\) = ([\w.]+)\.entry\(([^()]*)\)\s*\{\s*\1\.insert\(([^;]*)\);\s*\}',
                     r'if !\2.contains_key(&\3) { \2.insert(\3, \4); }', text, counts, 'R8')
+        # R19: `.map_err(|_e| E)` (the closure ignores its argument) -> `.map_err_to(E)`: E is a pure constructor expression
+        text = rule_R19(text, counts)
         # R13: `RECV.map(|v| BODY).unwrap_or(D)` -> `match RECV { Some(v) => BODY, None => D }`
         text = rule_R13(text, counts)
         # R14: `.then_with(|| E)` -> `.then(E)` (std's eager twin; E is pure and total in this code base)
@@ -353,3 +355,22 @@ def rule_R14(text, counts):
         new = '.then(' + body + ')'
         text = text[:m.start()] + _keep_nl(text[m.start():cl + 1], new) + text[cl + 1:]
         counts['R14'] = counts.get('R14', 0) + 1
+
+
+def rule_R19(text, counts):
+    pos = 0
+    while True:
+        msk = mask(text)
+        m = re.compile(r'\.map_err\(\|_e\|\s*').search(msk, pos)
+        if not m:
+            return text
+        op = msk.find('(', m.start())
+        cl = match_brace(msk, op, '(', ')')
+        body = text[m.end():cl]
+        if re.search(r'\b_e\b', mask(body)) or re.search(r'\breturn\b|\?', mask(body)):
+            pos = m.end()
+            continue
+        new = '.map_err_to(' + body + ')'
+        text = text[:m.start()] + _keep_nl(text[m.start():cl + 1], new) + text[cl + 1:]
+        counts['R19'] = counts.get('R19', 0) + 1
+        pos = m.start() + len(new)
